@@ -508,6 +508,36 @@ def window_start(t):
     return (((t // NS + EPOCH) // 65536) * 65536 - EPOCH) * NS
 
 
+def _to_ntp_ieee(t):
+    """ToNTP as the code computes it (IEEE double arithmetic, which Python floats are); used ONLY to place samples."""
+    sec = float(t) / 1000000000 + 2208988800.0
+    ip = int(sec)
+    return (ip << 32) | int((sec - float(ip)) * 4294967295.0)
+
+
+def algebraic_instants(rng, k):
+    """Instants whose 64-bit NTP value n makes n * 10^9 land within 2^31 of a multiple of 2^64 (on either side): where an
+    exact 64 x 64 -> 128 bit conversion (instead of the float path) would carry - or forget to carry - into its high word.
+    ToNTP's results have the form sec * 2^32 + 2048 j - 1; for a given second at most one j qualifies (about 1 in 1000)."""
+    found = []
+    tries = 0
+    while len(found) < k and tries < 600000:
+        tries += 1
+        sec = rng.randrange(EPOCH, EPOCH + T_MAX // NS)
+        c = ((sec * NS) % (1 << 32)) << 32
+        for lo, hi in (((1 << 64) - c - (1 << 31), (1 << 64) - c - 1), ((1 << 64) - c, (1 << 64) - c + (1 << 31) - 1)):
+            f0 = -(-lo // NS)
+            for f in range(f0, hi // NS + 1):
+                if 0 < f < (1 << 32) and f % 2048 == 2047:
+                    n = (sec << 32) | f
+                    t0 = (sec - EPOCH) * NS + ((f + 1) // 2048) * NS // (1 << 21)
+                    for d in range(-640, 641, 64):
+                        if 0 <= t0 + d <= T_MAX and _to_ntp_ieee(t0 + d) == n:
+                            found.append(t0 + d)
+                            break
+    return found
+
+
 def ntp_samples(rng, n):
     """Seeded instants 1970..2036: [t, t2, ref] with |t2 - t| < 1 ms."""
     out = []
@@ -544,6 +574,8 @@ def ntp_samples(rng, n):
     fixed = [0, 1, 999999999, NS, T_MAX, T_MAX - 1, (2 ** 31 - 1) * NS, 2 ** 31 * NS, 2 ** 53, 2 ** 53 + 1, 2 ** 60, 2 ** 60 - 1]
     for t in fixed:
         add(t)
+    for t in algebraic_instants(rng, max(8, n // 12)):        # (see algebraic_instants)
+        out.append([t, t, t])
     while len(out) < n:
         k = rng.random()
         if k < 0.22:                                  # uniform, nanosecond granularity
